@@ -25,7 +25,7 @@ ASSUME = [
 DP_PATHS = ["arc", "clone_last", "raw", "unique", "offset", "union1", "union2", "dyn", "hs", "slice", "thin"]
 
 
-UNINIT_DP_PATHS = ["hsu_drop", "hsu_init", "mu_drop", "mu_init"]
+UNINIT_DP_PATHS = ["hsu_drop", "hsu_init", "mu_drop", "mu_init", "mus_drop", "mus_init", "mu3_drop"]
 
 
 def drop_panic_pass(ctx, prop="C05", paths=None):
@@ -45,7 +45,7 @@ def drop_panic_pass(ctx, prop="C05", paths=None):
         o = dict(x.split("=", 1) for x in (outs[k].split() if k < len(outs) and outs[k] else ["st=missing"]))
         _, path, which = ln.split()
         has_hdr = path in ("hs", "thin", "hsu_drop", "hsu_init")
-        n_el = 3 if path in ("hs", "slice", "thin", "hsu_init") else (0 if path in ("hsu_drop", "mu_drop") else 1)
+        n_el = 3 if path in ("hs", "slice", "thin", "hsu_init") else (0 if path in ("hsu_drop", "mu_drop", "mus_drop", "mu3_drop") else 1)
         want_st = "panic" if (which == "el" and n_el > 0) or (which == "hdr" and has_hdr) else "ok"
         why = []
         if o.get("st") != want_st:
